@@ -2,11 +2,12 @@ import Gql.Proofs.VisitorSafe
 import Gql.Proofs.Parallel
 import Gql.Proofs.AstKeysComplete
 import Gql.Proofs.SpecBound
+import Gql.Proofs.VisitorEdit
 /-!
 # C11 — AST traversal visits every node once, in order, and edits without mutating
 
-Property theorems only (lemmas: `Gql/Proofs/Visitor.lean` simulation of the contract by the stack
-machine, `SpecTotal.lean`, `SpecKeep.lean`, `SpecBound.lean`, `Parallel.lean`, `VisitorSafe.lean` loop invariant,
+Property theorems only (lemmas: `Gql/Proofs/Visitor.lean` / `VisitorEdit.lean` simulation of the contract by the
+stack machine (non-editing / all visitors), `EditApply.lean` edits vs documented effect, `SpecTotal.lean`, `SpecKeep.lean`, `SpecBound.lean`, `Parallel.lean`, `VisitorSafe.lean` loop invariant,
 `AstKeysComplete.lean` generated table).
 
 Model: `Gql.Syntax.visitFuel root vk v s fuel` — `visit(root, visitor, visitor_keys)` as the
@@ -73,10 +74,10 @@ example : summary (visitFuel exDoc keysFor (scriptV fun n e => if n = 1 ∧ !e t
 
 /-! ### C11-2 -/
 
-/-- C11-2 `visit_eq_spec` for visitors that never edit (`_partial`: the statement for editing
-visitors is `visit_eq_spec_full` below and is tied to the implementation by the correspondence
-run only).  Whenever the documented traversal is defined (`specVisit … = some out`; it always is,
-see `spec_defined`), `visit` performs exactly its calls — `out.state` is the state of the visitor
+/-- C11-2 for visitors that never edit (kept under its first name; it is the instance of
+`visit_eq_spec` below with the extra information that the value returned is the root itself).
+Whenever the documented traversal is defined (`specVisit … = some out`; it always is, see
+`spec_defined`), `visit` performs exactly its calls — `out.state` is the state of the visitor
 after the documented call sequence `enter node, children in key order, leave node` with the
 documented `(node, key, parent, path, ancestors)` arguments, cut short by skip and break as
 documented —, needs exactly `out.iters` loop iterations, and returns what the contract demands. -/
@@ -94,14 +95,24 @@ theorem spec_defined (vk : String → List String) (v : Visitor σ) (hv : NonEdi
   spec_terminates hv root s (root.size + 1) (Nat.lt_succ_self _)
 
 /-- full statement of C11-2 (editing visitors included): wherever the contract is defined, `visit`
-terminates within the contract's iteration count, makes the same calls and returns the documented
-tree.  Not proved; the correspondence run compares model, implementation and contract on every
-generated case. -/
+terminates within the contract's iteration count, makes the same calls (same final visitor state)
+and returns the documented value. -/
 def visit_eq_spec_full : Prop :=
   ∀ (σ : Type) (vk : String → List String) (v : Visitor σ) (d : Nat) (root : Node) (s : σ) (out : Outcome σ),
     specVisit vk v d root s = some out →
     ∀ fuel, out.iters ≤ fuel →
       ∃ r, visitFuel root vk v s fuel = some (.ok (r, out.state)) ∧ ∀ x, out.result = some x → r = x
+
+/-- C11-2 `visit_eq_spec`, proved in full: for **every** visitor — idle / skip / break / remove /
+replace on enter and on leave, root included — the stack machine refines the documented
+recursion.  The per-level `edits` lists of the machine are related to the documented effect per
+position (`SlotEdits`, `ArrEdits`, `FieldEdits` in `Proofs/EditApply.lean`): applying them with
+the running index offset (`applyArr`) resp. attribute by attribute (`applyNode`) yields exactly
+the tuple / node the contract rebuilds, bottom-up.  The one undocumented case (BREAK after an
+edit) is exactly where `out.result = none` leaves the returned value free. -/
+theorem visit_eq_spec : visit_eq_spec_full := by
+  intro σ vk v d root s out h
+  exact visit_of_spec_full d root s out h
 
 /-- each reachable node is entered exactly once in document order and left after its children:
 the contract's call sequence for the visitor that never interferes is the pre/post-order walk.
@@ -155,12 +166,41 @@ example : summary (visitFuel exDoc keysFor (scriptV fun _ _ => .idle) [] 23) =
 /-! ### C11-4 -/
 
 /-- C11-4 `edit_semantics`, full statement: the effect of skip / break / remove / replace is the
-one `Spec.specNode` spells out (a removed tuple item disappears, a removed single-valued child
-becomes absent, a replacement is traversed instead of the original and is what `leave` receives,
-`leave` returning SKIP is "no action", the result contains only nodes).  It is `visit_eq_spec_full`
-read on the result component; not proved — see the `example`s for the repaired defects F9 and F10
-and the correspondence run. -/
+one `Spec.specNode` spells out —
+* `specItems`: a removed tuple item disappears, a replaced one is replaced in place, later items
+  keep their relative order (the machine's index offset);
+* `specKeys`: a removed single-valued child becomes `absent` (`None`), a replaced one the new
+  node, an edited tuple the rebuilt tuple;
+* `specBody`: a node any of whose children changed is handed to `leave` (and recorded) as a fresh
+  copy `Node.mk kind 0 payload (withFields …)`; the original is never touched;
+* `specNode`: a replacement returned by `enter` is traversed instead of the original and is what
+  `leave` receives; `leave` may remove or replace again; `leave` answering SKIP is "no action";
+* `specVisit`: the value returned is the root, `None` (root removed) or the node now standing for
+  the root — never a sentinel or a tuple. -/
 def edit_semantics_full : Prop := visit_eq_spec_full
+
+/-- C11-4 `edit_semantics`, proved: it is `visit_eq_spec` read on the result component. -/
+theorem edit_semantics : edit_semantics_full := visit_eq_spec
+
+/-- wherever the contract pins the returned value it is `None` or a node -/
+theorem result_only_nodes (vk : String → List String) (v : Visitor σ) (d : Nat) (root : Node) (s : σ)
+    (out : Outcome σ) (h : specVisit vk v d root s = some out) (x : Option Val) (hx : out.result = some x) :
+    x = none ∨ ∃ n, x = some (.node n) := by
+  unfold specVisit at h
+  cases hn : specNode vk v d ⟨s, 0, false⟩ root .none none [] [] with
+  | none => simp [hn] at h
+  | some res =>
+    rw [hn] at h
+    cases res with
+    | brk w =>
+      simp at h; subst h
+      cases he : w.edited <;> simp [he] at hx
+      exact Or.inr ⟨root, hx.symm⟩
+    | done w sl =>
+      cases sl <;> simp at h <;> subst h <;> simp at hx
+      · exact Or.inr ⟨root, hx.symm⟩
+      · exact Or.inl hx.symm
+      · exact Or.inr ⟨_, hx.symm⟩
 
 /-- `{ a: b }` with the alias removed: the rebuilt field has no alias (`absent`), all rebuilt
 nodes are fresh objects (serial 0), untouched nodes keep their identity -/
@@ -189,6 +229,34 @@ example : (specVisit keysFor (scriptV fun n e => if n = 5 ∧ e then .remove els
       10 exDoc []).map (fun o => match o.result with | some (some (.node n)) => n.beq exDocNoAlias | _ => false)
     = some true := by decide +kernel
 
+/-- `{ a b c }`-like selection set with three fields (serials 11, 12, 13) -/
+def exSel : Node :=
+  .mk "selection_set" 10 "_" [("selections", .many [
+    .mk "field" 11 "a" [("alias", .absent), ("name", .absent), ("arguments", .absent), ("directives", .absent), ("selection_set", .absent)],
+    .mk "field" 12 "b" [("alias", .absent), ("name", .absent), ("arguments", .absent), ("directives", .absent), ("selection_set", .absent)],
+    .mk "field" 13 "c" [("alias", .absent), ("name", .absent), ("arguments", .absent), ("directives", .absent), ("selection_set", .absent)]])]
+
+def resultSerials (r : Option (O (Option Val × List (Nat × Bool)))) : Option (List Nat) :=
+  match r with
+  | some (.ok (some (.node n), _)) => some n.serials
+  | _ => none
+
+-- two removals in one tuple (index offset): items 11 (on enter) and 13 (on leave) go, 12 stays
+example : resultSerials (visitFuel exSel keysFor
+      (scriptV fun n e => if (n = 11 ∧ e) ∨ (n = 13 ∧ !e) then .remove else .idle) [] 60) = some [0, 12] := by decide +kernel
+-- replacement on enter is traversed instead of the original, and is what `leave` receives:
+-- field 12 is replaced by a field (serial 20) with a name child (serial 21)
+example : summary (visitFuel exSel keysFor
+      (scriptV fun n e => if n = 12 ∧ e then
+        .replace (.mk "field" 20 "x" [("alias", .absent), ("name", .one (.mk "name" 21 "n" [])), ("arguments", .absent),
+          ("directives", .absent), ("selection_set", .absent)]) else .idle) [] 60) =
+    some ("node 0", [(10, true), (11, true), (11, false), (12, true), (21, true), (21, false), (20, false),
+      (13, true), (13, false), (0, false)]) := by decide +kernel
+-- replacement on leave
+example : resultSerials (visitFuel exSel keysFor
+      (scriptV fun n e => if n = 12 ∧ !e then .replace (.mk "field" 20 "x" []) else .idle) [] 60) =
+    some [0, 11, 20, 13] := by decide +kernel
+
 /-! ### C11-5 -/
 
 /-- C11-5 `parallel_alone`. In `ParallelVisitor(vs)` with non-editing members, member `i` ends in
@@ -212,6 +280,15 @@ theorem parallel_alone (vk : String → List String) (vs : List (Visitor σ)) (h
   intro fuel hf
   exact ⟨hP3 fuel (by omega), ha3 fuel (by omega),
     parallel_alone_spec vs hvs ss i v s hv hs root hok _ P a hP ha⟩
+
+/-- wrapping a single non-editing visitor in a `ParallelVisitor` changes nothing -/
+theorem parallel_singleton (vk : String → List String) (v : Visitor σ) (hv : NonEditing v) (s : σ)
+    (root : Node) (hok : root.idsOK = true) :
+    ∃ n ps s', ∀ fuel, n ≤ fuel →
+      visitFuel root vk (parallel [v]) (parallelInit [s]) fuel = some (.ok (some (.node root), ps)) ∧
+      visitFuel root vk v s fuel = some (.ok (some (.node root), s')) ∧
+      (ps[0]?).map Prod.fst = some s' :=
+  parallel_alone vk [v] (by intro v' hv'; simp at hv'; subst hv'; exact hv) [s] 0 v s rfl rfl root hok
 
 example : exDoc.idsOK = true := by decide
 -- member 0 skips the field, member 1 breaks when leaving the alias, member 2 watches
